@@ -245,6 +245,19 @@ Fixpoint tdel (t : tree) (k : Z) {struct t} : option dres :=
     end
   end.
 
+(* read dependencies declared by a descent for k that ends in KeyError *)
+Fixpoint read_path (t : tree) (k : Z) : list event :=
+  match t with
+  | Leaf _ _ => []
+  | Node i kids =>
+    ERead i ::
+    (fix go (l : list (Z * tree)) : list event :=
+       match l with
+       | [] => []
+       | (_, c) :: rest => if chosen k rest then read_path c k else go rest
+       end) kids
+  end.
+
 (* ---------- whole-container operations ---------- *)
 Definition tclear (t : tree) : tree * list event :=
   match t with
